@@ -17,6 +17,7 @@ Families (each a complete product or a complete stated schedule; decoded from a 
   halfturn  the hand-typed half-turn spellings "3.14159265359", "3.1416", "3.14159" in each rpy component, on the
             first / second moving joint or a leading fixed joint, x axis {x, z, generic} x world x companion yaw
   contlim   continuous joints that carry <limit effort=.. velocity=../> (no lower/upper: valid URDF), n = 1, 2
+  n2s       (thorough only) the n2 product once more with the value/layout rotation shifted by 5
 Values (xyz, rpy, limits, generic axes, fixed-joint origin kinds, element order in the file) are not part of the
 product; they rotate through fixed palettes keyed on the running index, so every palette value meets every variant
 somewhere.  VERIF_SEED adds ONE generic element to the rpy, xyz and generic-axis palettes.
@@ -219,7 +220,7 @@ def family_size(fam, tier):
         return len(BUNDLED)
     if fam == "n1":
         return NVAR * 4 * 4
-    if fam == "n2":
+    if fam in ("n2", "n2s"):
         return NVAR * NVAR * 8 * 4
     if fam == "sched":
         return len(sched_table(tier)) * 4
@@ -233,7 +234,7 @@ def family_size(fam, tier):
 def spec_at(fam, idx, seed, tier):
     """Explicit chain spec of program number idx of a family (pure function of its arguments)."""
     P = pal(seed)
-    if fam in ("n1", "n2"):
+    if fam in ("n1", "n2", "n2s"):
         n = 1 if fam == "n1" else 2
         r, inertial = divmod(idx, 2)
         r, world = divmod(r, 2)
@@ -244,7 +245,7 @@ def spec_at(fam, idx, seed, tier):
             vs.append(variant(v))
         assert r == 0
         slots = [(mask >> k) & 1 for k in range(n + 1)]
-        return chain_spec(P, idx, vs, slots, world, inertial)
+        return chain_spec(P, idx + (5 if fam == "n2s" else 0), vs, slots, world, inertial)
     if fam == "sched":
         t, wi = divmod(idx, 4)
         n, s, pat = sched_table(tier)[t]
@@ -460,11 +461,20 @@ def work(p):
 
 # ---------------------------------------------------------------------------------------------- run / replay
 
-FAMILIES = ["bundled", "n1", "n2", "halfturn", "contlim", "sched"]   # both tiers; only the size of `sched` differs
+FAMILIES = ["bundled", "n1", "n2", "halfturn", "contlim", "sched"]   # quick; `sched` is thinner there
+THOROUGH_EXTRA = ["n2s"]   # the n2 product again with the value/layout rotation shifted by 5
 
 
 def run(ctx):
-    fams = FAMILIES
+    fams = FAMILIES + (THOROUGH_EXTRA if ctx.tier == "thorough" else [])
+    only = os.environ.get("VERIF_C13_ONLY")   # debugging aid (mutant trials on a loaded machine): a subset of families
+    if only:
+        fams = [f for f in fams if f in only.split(",")]
+        ctx.notes.append("VERIF_C13_ONLY=%s: NOT the registered enumeration" % only)
+    if ctx.deadline is None:
+        # mp.Pool silently re-spawns a worker that dies (OOM kill, stray signal) and the lost shard is then waited for
+        # forever; a wall-clock guard turns that into HARNESS-ERROR (exit 2) instead of a hang
+        ctx.deadline = ctx.t0 + (3600 if ctx.tier == "thorough" else 1500)
     parts = []
     with ctx.pool() as pool:
         for fam in fams:
@@ -484,7 +494,9 @@ def run(ctx):
                  "placements x world x inertial (640 + 51200, not thinned); halfturn: 3 spellings x 3 rpy components x 4 "
                  "carriers x 3 axes x world x companion yaw (432); contlim: continuous joints with an effort/velocity-only "
                  "<limit> (320 + 3200); sched: n=3..8, joint k gets variant (s+7k) mod 40, " + sched_rule + ", x all "
-                 "fixed-joint patterns on <=2 slots with 1..2 joints each x world x inertial; values rotate through the "
+                 "fixed-joint patterns on <=2 slots with 1..2 joints each x world x inertial"
+                 + ("; n2s: the n2 product again with the value/layout rotation shifted by 5" if ctx.tier == "thorough" else "")
+                 + "; values rotate through the "
                  "palettes with the running index; distinct = distinct file contents (hashed); every file is non-trivial "
                  "(>= 1 moving joint, 5 joint vectors compared)",
                  {"origin_kinds": list(ORIGIN_KINDS), "axis_kinds": list(AXIS_KINDS), "types": list(TYPE_KINDS) + ["continuous_ev (contlim only)"],
@@ -493,6 +505,8 @@ def run(ctx):
                   "joint_vectors": ["zero clipped into limits", "lower", "upper", "lower+0.37 range", "lower+per-joint fraction"],
                   "sched_files": family_size("sched", ctx.tier)})
     ctx.coverage["programs"] = ctx.coverage["evaluations"]
+    if only:
+        ctx.coverage["exhaustive"] = False
     ctx.assumptions += [
         "a continuous joint has no declared limits; its FK is compared on [-pi, pi] and its loaded limits must be numbers admitting a full turn",
         "joint axes in generated files have unit length (the oracle normalises, the loader does not)",
